@@ -57,7 +57,6 @@ DNS_COMPRESSION_HEADER_LEN = 1
 DNS_COMPRESSION_POINTER_LEN = 2
 MAX_DNS_LABELS = 128
 MAX_NAME_LENGTH = 253
-MAX_LABEL_LENGTH = 63
 
 DECODE_EXCEPTIONS = (IndexError, struct.error, IncomingDecodeError)
 
@@ -390,15 +389,6 @@ class DNSIncoming:
             raise IncomingDecodeError(
                 f"DNS name {name} exceeds maximum length of {MAX_NAME_LENGTH} from {self.source}"
             )
-        if not name.isascii():
-            # Invalid UTF-8 is decoded with replacement characters that take three bytes
-            # each, a label that no longer fits when encoded again cannot be sent back
-            # as a known answer or echoed in a reply.
-            for label in labels:
-                if len(label.encode('utf-8')) > MAX_LABEL_LENGTH:
-                    raise IncomingDecodeError(
-                        f"DNS label {label} exceeds maximum length of {MAX_LABEL_LENGTH} from {self.source}"
-                    )
         return name
 
     def _decode_labels_at_offset(self, off: _int, labels: List[str], seen_pointers: Set[int]) -> int:
